@@ -72,13 +72,16 @@ structure SchInv (s : SchemaStore) (ctr dctr : Nat) : Prop where
   wf : ∀ m o, s.memLookup m = some o → WFS (s.heap o) ctr
   dwf : ∀ m sc, s.disk m = some sc → WFS sc dctr ∧ AllP sc
   agr : ∀ m o, s.memLookup m = some o → Agrees (s.heap o) ((s.disk m).getD {})
+  /-- the IsEmpty() flags are accurate -/
+  curE : s.curEmpty = true → ∀ m, s.cur m = none
+  frzE : ∀ f, s.frz = some (f, true) → ∀ m, f m = none
 
 theorem schInv_init (a b : Nat) : SchInv {} a b := by
-  refine ⟨?_, ?_, ?_, ?_, ?_, ?_⟩ <;> intros <;> simp_all [SchemaStore.frzMap, SchemaStore.memLookup]
+  refine ⟨?_, ?_, ?_, ?_, ?_, ?_, ?_, ?_⟩ <;> intros <;> simp_all [SchemaStore.frzMap, SchemaStore.memLookup]
 
 theorem schInv_mono {s : SchemaStore} {a b a' b' : Nat} (h : SchInv s a b) (ha : a ≤ a') (hb : b ≤ b') : SchInv s a' b' :=
   ⟨h.curP, h.frzP, h.same, fun m o hm => wfs_mono (h.wf m o hm) ha,
-   fun m sc hm => ⟨wfs_mono (h.dwf m sc hm).1 hb, (h.dwf m sc hm).2⟩, h.agr⟩
+   fun m sc hm => ⟨wfs_mono (h.dwf m sc hm).1 hb, (h.dwf m sc hm).2⟩, h.agr, h.curE, h.frzE⟩
 
 /-! ### what `GetSchema` returns -/
 
@@ -114,7 +117,7 @@ theorem memLookup_lt {s : SchemaStore} {a b : Nat} (inv : SchInv s a b) {m o : N
 /-- allocating an object nobody refers to keeps the invariant and every logical schema -/
 theorem schInv_alloc {s : SchemaStore} {a b : Nat} (inv : SchInv s a b) (m : Nat) (sc : Schema) :
     SchInv (s.alloc m sc).1 a b := by
-  refine ⟨?_, ?_, ?_, ?_, ?_, ?_⟩
+  refine ⟨?_, ?_, ?_, ?_, ?_, ?_, inv.curE, inv.frzE⟩
   · intro m' o h
     have := inv.curP m' o h
     exact ⟨Nat.lt_succ_of_lt this.1, by rw [alloc_owner_old _ _ _ _ this.1]; exact this.2⟩
@@ -240,7 +243,7 @@ theorem adoptAt_spec {s1 : SchemaStore} {a b : Nat} {m o : Nat} (inv1 : SchInv s
       intro m' hne; simp [SchemaStore.memLookup, hne, SchemaStore.frzMap]
     have hmlm : ({ s1 with cur := fun m' => if m' = m then some o else s1.cur m', curEmpty := false } : SchemaStore).memLookup m = some o := by
       simp [SchemaStore.memLookup]
-    refine ⟨⟨?_, ?_, ?_, ?_, inv1.dwf, ?_⟩, by simp, hlt, hown, rfl, ?_, rfl, rfl⟩
+    refine ⟨⟨?_, ?_, ?_, ?_, inv1.dwf, ?_, fun hh => absurd hh (by simp), inv1.frzE⟩, by simp, hlt, hown, rfl, ?_, rfl, rfl⟩
     · intro m' o' h
       by_cases hm' : m' = m
       · subst hm'; simp at h; subst h; exact ⟨hlt, hown⟩
@@ -396,7 +399,7 @@ theorem logical_setObj_self {s : SchemaStore} {o m : Nat} (sc : Schema) (h : s.c
 theorem schInv_setObj {s : SchemaStore} {a a' b : Nat} (inv : SchInv s a b) (haa : a ≤ a') {o m : Nat} {sc : Schema}
     (hc : s.cur m = some o) (hown : s.owner o = m) (hwf : WFS sc a')
     (hagr : Agrees sc ((s.disk m).getD {})) : SchInv (s.setObj o sc) a' b := by
-  refine ⟨inv.curP, inv.frzP, inv.same, ?_, inv.dwf, ?_⟩
+  refine ⟨inv.curP, inv.frzP, inv.same, ?_, inv.dwf, ?_, inv.curE, inv.frzE⟩
   · intro m' o' h
     rw [setObj_memLookup] at h
     by_cases hm : m' = m
@@ -665,7 +668,8 @@ theorem schema_prepare_spec {s : SchemaStore} {a b : Nat} (inv : SchInv s a b) :
       intro m
       simp [SchemaStore.memLookup, SchemaStore.frzMap, hf]
       cases s.cur m <;> rfl
-    refine ⟨⟨?_, ?_, ?_, ?_, inv.dwf, ?_⟩, ?_, rfl⟩
+    refine ⟨⟨?_, ?_, ?_, ?_, inv.dwf, ?_, fun _ _ => rfl, fun f hf' m => by
+        simp at hf'; rw [← hf'.1]; exact inv.curE hf'.2 m⟩, ?_, rfl⟩
     · intro m o h; simp at h
     · intro m o h; simp [SchemaStore.frzMap] at h; exact inv.curP _ _ h
     · intro m o o' h; simp at h
@@ -980,7 +984,7 @@ theorem schema_flush_spec {s : SchemaStore} {a b b' : Nat} (inv : SchInv s a b) 
       | some o' =>
         have : o = o' := inv.same _ _ _ hc (by rw [hfm]; exact hfmm)
         subst this; left; simp
-    refine ⟨⟨?_, ?_, ?_, ?_, ?_, ?_⟩, ?_, ?_⟩
+    refine ⟨⟨?_, ?_, ?_, ?_, ?_, ?_, inv.curE, fun f' hf' => by simp [flushed] at hf'⟩, ?_, ?_⟩
     · exact inv.curP
     · intro m o h; simp [flushed, SchemaStore.frzMap] at h
     · intro m o o' _ h; simp [flushed, SchemaStore.frzMap] at h
@@ -1059,7 +1063,7 @@ theorem schema_recover_spec {s : SchemaStore} {a b : Nat} (inv : SchInv s a b) :
     (∀ m k i, s.recover.tagKeyView m k = some i → s.tagKeyView m k = some i) := by
   have hl : ∀ m, s.recover.logical m = s.disk m := by
     intro m; simp [SchemaStore.logical, SchemaStore.recover, SchemaStore.memLookup, SchemaStore.frzMap]
-  refine ⟨⟨?_, ?_, ?_, ?_, ?_, ?_⟩, ?_, ?_⟩
+  refine ⟨⟨?_, ?_, ?_, ?_, ?_, ?_, fun _ _ => rfl, fun f' hf' => by simp [SchemaStore.recover] at hf'⟩, ?_, ?_⟩
   · intro m o h; simp [SchemaStore.recover] at h
   · intro m o h; simp [SchemaStore.recover, SchemaStore.frzMap] at h
   · intro m o o' h; simp [SchemaStore.recover] at h
@@ -1110,6 +1114,41 @@ theorem schema_recover_spec {s : SchemaStore} {a b : Nat} (inv : SchInv s a b) :
           have ag := inv.agr _ _ hm
           rw [hd] at ag
           rw [(ag.tag k j).2 he]; rfl
+
+/-- forgetting an immutable map that is empty -/
+theorem schema_dropEmpty_spec {s : SchemaStore} {a b : Nat} (inv : SchInv s a b) :
+    SchInv s.dropEmpty a b ∧ (∀ m, s.dropEmpty.logical m = s.logical m) ∧ s.dropEmpty.disk = s.disk := by
+  unfold SchemaStore.dropEmpty
+  cases hf : s.frz with
+  | none => exact ⟨inv, fun _ => rfl, rfl⟩
+  | some p =>
+    obtain ⟨f, e⟩ := p
+    cases e with
+    | false => exact ⟨inv, fun _ => rfl, rfl⟩
+    | true =>
+      have hfe : ∀ m, f m = none := inv.frzE f hf
+      have hfm : ∀ m, s.frzMap m = none := by intro m; simp [SchemaStore.frzMap, hf, hfe]
+      have hml : ∀ m, ({ s with frz := none } : SchemaStore).memLookup m = s.memLookup m := by
+        intro m
+        have h1 : ({ s with frz := none } : SchemaStore).frzMap m = none := by simp [SchemaStore.frzMap]
+        unfold SchemaStore.memLookup
+        rw [h1, hfm m]
+      refine ⟨⟨inv.curP, ?_, ?_, ?_, inv.dwf, ?_, inv.curE, fun f' hf' => by cases hf'⟩, ?_, rfl⟩
+      · intro m o h; simp [SchemaStore.frzMap] at h
+      · intro m o o' _ h; simp [SchemaStore.frzMap] at h
+      · intro m o h; rw [hml] at h; exact inv.wf _ _ h
+      · intro m o h; rw [hml] at h; exact inv.agr _ _ h
+      · intro m; unfold SchemaStore.logical; rw [hml]
+
+theorem schema_prepareE_spec {s : SchemaStore} {a b : Nat} (inv : SchInv s a b) (se : Bool) :
+    SchInv (s.prepareFlushE se) a b ∧ (∀ m, (s.prepareFlushE se).logical m = s.logical m) ∧ (s.prepareFlushE se).disk = s.disk := by
+  unfold SchemaStore.prepareFlushE
+  cases se with
+  | false => simpa using schema_prepare_spec inv
+  | true =>
+    obtain ⟨i1, l1, d1⟩ := schema_dropEmpty_spec inv
+    obtain ⟨i2, l2, d2⟩ := schema_prepare_spec i1
+    exact ⟨by simpa using i2, fun m => by simp [l2, l1], by simp [d2, d1]⟩
 
 /-- within one metric, field ids and tag key ids identify the name -/
 theorem fieldView_inj {s : SchemaStore} {a b : Nat} (inv : SchInv s a b) (hba : b ≤ a) {m f f' i : Nat}
